@@ -102,6 +102,28 @@ func subst(a []string) []string {
 	return out
 }
 
+// settle: the goroutines a seed command has started (expiry timers) run until each of them waits, as
+// they would have long before the clients of the scenario arrive - a timer created inside such a
+// goroutine starts at the seed command, not at the first scheduling decision of the exploration.
+// Deterministic (keep the running thread, else the lowest id) and bounded.
+func settle(w *rt.World) {
+	saved := w.Chooser
+	n := 0
+	w.Chooser = func(w *rt.World, cur *rt.Thread, en []*rt.Thread) *rt.Thread {
+		if n++; n > 2000 {
+			return nil
+		}
+		for _, t := range en {
+			if t == cur {
+				return t
+			}
+		}
+		return en[0]
+	}
+	w.Run()
+	w.Chooser = saved
+}
+
 func mkInstance(sc *Scenario) (*explorer.Instance, *runState) {
 	h.Boot(shardNum, 1)
 	w := rt.NewWorld()
@@ -118,6 +140,7 @@ func mkInstance(sc *Scenario) (*explorer.Instance, *runState) {
 			continue
 		}
 		b := h.Exec(bg, rs.mgr, nil, h.B(a...)...)
+		settle(w)
 		if v, err := model.DecodeOne(b); err == nil && model.Known(a[0]) {
 			for _, o := range rs.seedKS.Apply(h.B(a...)) {
 				if n, why := o.Check(v); why == "" {
